@@ -13,6 +13,7 @@ import (
 	"io"
 	"io/fs"
 	realos "os"
+	"strconv"
 	"syscall"
 	"time"
 )
@@ -39,6 +40,25 @@ type Inject struct {
 type Seam interface {
 	Before(c *Call) *Inject
 	After(c *Call, err error)
+}
+
+// Stamper is an optional part of a seam: the instant to put on a file that is
+// written through a handle. The shim stamps through the descriptor, so the
+// time lands on the file that was written even when another request has
+// renamed it (or its collection) since it was opened.
+type Stamper interface {
+	StampTime() (time.Time, bool)
+}
+
+func (f *File) stamp() {
+	if f == nil || !f.writable || f.f == nil {
+		return
+	}
+	if s, ok := Hook.(Stamper); ok {
+		if now, ok := s.StampTime(); ok {
+			realos.Chtimes("/proc/self/fd/"+strconv.Itoa(int(f.f.Fd())), now, now)
+		}
+	}
 }
 
 // Hook is the installed seam; nil means plain pass-through. It is set by the
@@ -445,6 +465,7 @@ func (f *File) Write(b []byte) (int, error) {
 				inj.Short = len(b)
 			}
 			n, _ = f.f.Write(b[:inj.Short])
+			f.stamp()
 		}
 		c.N = n
 		err := pathErr(c, inj.Errno)
@@ -453,6 +474,9 @@ func (f *File) Write(b []byte) (int, error) {
 	}
 	n, err := f.f.Write(b)
 	c.N = n
+	if n > 0 {
+		f.stamp()
+	}
 	after(c, err)
 	return n, err
 }
@@ -466,6 +490,9 @@ func (f *File) WriteAt(b []byte, off int64) (int, error) {
 	}
 	n, err := f.f.WriteAt(b, off)
 	c.N = n
+	if n > 0 {
+		f.stamp()
+	}
 	after(c, err)
 	return n, err
 }
